@@ -6,7 +6,8 @@
 EXTENDS Lex, Grammar, Json
 
 CONSTANTS MaxLen, MaxLenIndent,
-          MaxLines, MaxWidth     \* "shape" mode: up to MaxLines lines, each indented by 0..MaxWidth blanks
+          MaxLines, MaxWidth,    \* "shape" mode: up to MaxLines lines, each indented by 0..MaxWidth blanks
+          MaxGLines, MaxGWidth   \* "gshape" mode: the same with grammatical lines (`if a:` / `pass`)
 VARIABLES s, m
 
 Alphabet == {" ","\t","\n","\r","#","(",")","[","]","{","}","'","\"","\\","a","f","r","b","0","1",
@@ -32,7 +33,15 @@ Blanks(w) == [i \in 1..w |-> " "]
 Lines(t) == Cardinality({i \in 1..Len(t) : t[i] = "\n"})
 
 Init == s = <<>> /\ m = "root"
-Next == \/ m = "root" /\ s' = s /\ m' \in {"all","indent","shape"}
+\* a fourth space: GRAMMATICAL shapes -- lines `<w blanks> def a():` and `<w blanks> pass` (a `def`,
+\* because the Standard dialect has no `if` at module level), so that the
+\* parser's verdict (accept / reject) is predicted too: blocks nested three deep, dedents to an
+\* enclosing level (accepted), between two levels or below the margin (rejected), bodies missing
+GLine(kind, w) == Blanks(w) \o (IF kind = "h" THEN <<"KDEF", " ", "a", "(", ")", ":", "\n">> ELSE <<"KPASS", "\n">>)
+
+Next == \/ m = "root" /\ s' = s /\ m' \in {"all","indent","shape","gshape"}
+        \/ m = "gshape" /\ Lines(s) < MaxGLines /\ m' = m
+                        /\ \E kind \in {"h", "b"} : \E w \in 0..MaxGWidth : s' = s \o GLine(kind, w)
         \/ m = "shape" /\ Lines(s) < MaxLines /\ (IF s = <<>> THEN TRUE ELSE s[Len(s)] = "\n") /\ m' = m
                        /\ \E w \in 0..MaxWidth : \E nl \in BOOLEAN :
                               s' = s \o Blanks(w) \o <<"a">> \o (IF nl THEN <<"\n">> ELSE <<>>)
